@@ -26,9 +26,9 @@ def run(ctx):
     configs = [dict(conc=1), dict(conc=2, kv=True, mm=True)]
     if T:
         configs += [dict(conc=8, kv=True), dict(conc=16, mm=True), dict(conc=1, delta=True), dict(conc=2, delta=True, mm=True, gcduring=True),
-                    dict(conc=1, older=True), dict(conc=3, older=True, kv=True)]
+                    dict(conc=1, older=True), dict(conc=3, older=True, kv=True), dict(conc=2, kv=True, lblk=16), dict(conc=4, delta=True, lblk=64)]
     else:
-        configs += [dict(conc=2, delta=True, gcduring=True)]
+        configs += [dict(conc=2, delta=True, gcduring=True, lblk=16)]
     nproc = min(16, vlib.NCPU)
     total = 0
     classes = {}
